@@ -158,6 +158,19 @@ theorem merge_into_undefined (cp : Doc → Doc) (xs : List Doc) :
     mergeInto cp (arr xs) undef = arr ((xs.filter (fun d => !d.isUndef)).map cp) := by
   simp [mergeInto, mapDocs_eq_map, dropUndef_eq_filter]
 
+/-- for arrays the copying overload is the moving overload applied to a copy of the source (holes are not
+members in either). -/
+theorem merge_copy_eq_move_of_copy (xs : List Doc) (d : Doc) :
+    mergeInto copyDoc (arr xs) d = mergeInto id (copyDoc (arr xs)) d := by
+  have hf : ∀ l : List Doc, (l.filter (fun d => !d.isUndef)).map copyDoc = (l.map copyDoc).filter (fun d => !d.isUndef) := by
+    intro l
+    induction l with
+    | nil => rfl
+    | cons a t ih =>
+      have ha : (copyDoc a).isUndef = a.isUndef := isUndef_copyDoc a
+      by_cases h : a.isUndef = true <;> simp [List.filter_cons, ha, h, ih]
+  cases d <;> simp [mergeInto, copyDoc, copyItems_eq_map, mapDocs_eq_map, dropUndef_eq_filter, hf]
+
 /-- the fold of inserts that merges the live items of `src` into a table. -/
 def mergeFold (cp : Doc → Doc) (src s : List Slot) : List Slot :=
   src.foldl (fun acc sl =>
